@@ -12,32 +12,8 @@ def hexs(s):
     return 'x' + s.encode().hex()
 
 
-def add_unless(rng, f):
-    """turn some until nodes into unless (sugar)"""
-    if f[0] == 'until' and rng.random() < 0.5:
-        return ('unless', add_unless(rng, f[1]), add_unless(rng, f[2]))
-    if f[0] == 'untilt' and rng.random() < 0.5:
-        return ('unlesst', f[1], f[2], add_unless(rng, f[3]), add_unless(rng, f[4]))
-    if f[0] in ('unless', 'unlesst'):
-        return f
-    return fml.rebuild(f, [add_unless(rng, c) for c in fml.children(f)])
-
-
-def desugar(f):
-    if f[0] == 'unless':
-        a, b = desugar(f[1]), desugar(f[2])
-        return ('or', ('alw', a), ('until', a, b))
-    if f[0] == 'unlesst':
-        a, b = desugar(f[3]), desugar(f[4])
-        return ('or', ('alwt', 0, f[2], a), ('untilt', f[1], f[2], a, b))
-    return fml.rebuild(f, [desugar(c) for c in fml.children(f)])
-
-
-# teach fml about the sugar nodes
-fml.BIN.add('unless')
-fml.TBIN.add('unlesst')
-fml.KW['unless'] = 'unless'
-fml.KW['unlesst'] = 'unless'
+add_unless = fml.add_unless
+desugar = fml.desugar
 
 
 class C15(Check):
